@@ -82,6 +82,9 @@ impl<R: Read + Seek> ReadBox<&mut R> for MoovBox {
                     "moov box contains a box with a larger size than it",
                 ));
             }
+            if s == 0 {
+                return Err(Error::InvalidData("moov box contains a box with size 0"));
+            }
 
             match name {
                 BoxType::MvhdBox => {
